@@ -230,6 +230,7 @@ func (vc *VC) evalDesignator(sc *Scope, d Expr) (out []modLoc, ok bool) {
 			anyObj := func(r Term) Term { return True }
 			cur := tt
 			for k, name := range path {
+				_ = k
 				var pkg *types.Package
 				if n, isNamed := cur.(*types.Named); isNamed {
 					pkg = n.Obj().Pkg()
@@ -247,6 +248,12 @@ func (vc *VC) evalDesignator(sc *Scope, d Expr) (out []modLoc, ok bool) {
 				}
 				idx := ipath[len(ipath)-1]
 				ft := cur.Underlying().(*types.Struct).Field(idx).Type()
+				if isStruct(ft) && k < len(path)-1 {
+					// objects reached through this embedded-by-value field only: they are the sub-references of that field
+					env.subRef(cur, idx, IntLit(0))
+					kind := 100 + env.Tag("refkind:sub_"+sanitize(typeKey(cur))+"."+sanitize(cur.Underlying().(*types.Struct).Field(idx).Name()))
+					anyObj = func(r Term) Term { return Eq(App(SInt, "refkind", r), IntLit(int64(kind))) }
+				}
 				if k == len(path)-1 {
 					if isStruct(ft) {
 						sfail("type-level designator must end in a non-struct field")
